@@ -524,6 +524,9 @@ def _fit_hourly(case, col, stats):
     def data():
         df = datasets.hourly_frame(days=365, solar=case.get("solar", False))
         df.iloc[100:103, df.columns.get_loc("observed")] = np.nan
+        # a 14-hour meter outage in January: that day falls below the training threshold and is left out of the fit - before the
+        # March clock change, so the day positions of the training subset and of the whole baseline differ from then on
+        df.iloc[480:494, df.columns.get_loc("observed")] = np.nan
         df.iloc[2000:2002, df.columns.get_loc("temperature")] = np.nan
         if "ghi" in df.columns:
             # gaps in the irradiance feed at hours whose meter and temperature readings are present: filled by the data class,
@@ -628,6 +631,12 @@ def _fit_daily(case, col, stats):
     thr = cv1 * {"lo": 1 - 1e-6, "hi": 1 + 1e-6}[case["thr"]]
     m2 = Model(settings={"developer_mode": True, "silent_developer_mode": True, "cvrmse_threshold": thr}).fit(data())
     cv, n, rel = _daily_truth(m2, data, Model, col, sub, stats, "threshold at value*(1+-1e-6)")
+    # the FIRST model's reported statistics are still its own after another model of the family has been fitted
+    other = Model().fit(Model is em.DailyModel and em.DailyBaselineData(datasets.daily_frame(days=365, noise=0.02, seed=9, base=60.0), is_electricity_data=True)
+                        or em.BillingBaselineData.from_series(datasets.billing_reads(datasets.daily_frame(days=365, noise=0.02, seed=9, base=60.0)["observed"]),
+                                                              datasets.daily_frame(days=365, noise=0.02, seed=9, base=60.0)["temperature"], is_electricity_data=True))
+    _daily_truth(m, data, Model, col, sub, stats, "first model, re-read after fits of other models")
+    del other
     if abs(cv / thr - 1) < 1e-9:
         return {"rejected": "refit moved CVRMSE onto its threshold (fit not reproducible; C03)"}
     if cv != cv1:
